@@ -5,7 +5,7 @@
 // VF-LEVEL: bounded-exhaustive differential crash check: every listed (entry point, option combination, string) case is executed on the real code under sanitizers; no sampling, no mutation-based search
 // VF-ASSUME: ASan/UBSan/_GLIBCXX_ASSERTIONS detect the memory and arithmetic errors the property names (iterator arithmetic before begin() of a std::string is only seen when the corrupted result is read back);; a case that uses more than 0.05 s (short inputs; typical cases take 1-100 microseconds) / 2 s (4 KiB inputs; typical 0.1-400 ms) of CPU time does not terminate;; the character classification of the C locale
 // VF-TECHNIQUE: exhaustive small-scope input enumeration on the real code under sanitizers with forked, supervised workers
-// VF-BUDGET_QUICK: 240
+// VF-BUDGET_QUICK: 420
 // VF-BUDGET_THOROUGH: 2400
 #include "C16_common.hpp"
 #include <Bpp/Text/TextTools.h>
@@ -408,7 +408,7 @@ add("ApplicationTools.range-vector-readers", {"1", "9", ",", "1:3", "9:1", "(", 
 
   // ---- DataTable -----------------------------------------------------------------------------------------------
   {
-    vector<string> seps = {",", "\t", ", ", ""};
+    vector<string> seps = {",", "\t", ""};
     vector<int> rn = {-1, 0, 1, 7};
     vector<string> od;
     for (auto& sp : seps) for (int h = 0; h < 2; ++h) for (int r : rn) od.push_back("sep=" + show(sp) + " header=" + vf::str(h) + " rowNames=" + vf::str(r));
@@ -570,7 +570,7 @@ add("ApplicationTools.range-vector-readers", {"1", "9", ",", "1:3", "9:1", "(", 
   add("NumCalcApplicationTools.getVector", {"s", "e", "q", "(", "1", ",", "=", ")"}, {"-"}, [](const string& s, int, vf::Case& c) {
     S(c, "NumCalcApplicationTools::getVector"); use(NumCalcApplicationTools::getVector(s));
   }, true);
-  add("NumCalcApplicationTools.getVector.words", {"seq(", "from=0", "from=2", "to=1", "to=x", "step=1", "step=0", "step=-1", "size=2", "size=0", "size=-1", "scale=log", "scale=z", ",", ")"}, {"-"}, [](const string& s, int, vf::Case& c) {
+  add("NumCalcApplicationTools.getVector.words", {"seq(", "seq(from=0,to=1,", "seq(from=2,to=1,", "from=0", "to=x", "step=1", "step=0.5", "step=0", "step=-1", "size=2", "size=0", "size=-1", "scale=log", "scale=z", ",", ")"}, {"-"}, [](const string& s, int, vf::Case& c) {
     S(c, "NumCalcApplicationTools::getVector"); use(NumCalcApplicationTools::getVector(s));
   }, true);
 
